@@ -311,12 +311,16 @@ Definition pexp (m : nat) (base : parser ex) : parser ex := fun ts =>
   | None => None
   end.
 
-(* bracket-subscript entry := select-all | range | formula *)
+(* head-of-input tests (boolean, so that they can be rewritten with in proofs) *)
+Definition hd_is (P : tok -> bool) (ts : list tok) : bool := match ts with t :: _ => P t | [] => false end.
+Definition t_apos (t : tok) : bool := match t with TSym Apos => true | _ => false end.
+Definition t_lp (t : tok) : bool := match t with TSym LP => true | _ => false end.
+
+(* bracket-subscript entry := range | formula | select-all *)
 Definition pix (m : nat) (base : parser ex) : parser ex := fun ts =>
-  match ts with
-  | TSym Colon :: TId _ :: _ => pexp m base ts
-  | TSym Colon :: r => Some (EAll, r)
-  | _ => pexp m base ts
+  match pexp m base ts with
+  | Some res => Some res
+  | None => match ts with TSym Colon :: r => Some (EAll, r) | _ => None end
   end.
 
 Definition psub (m : nat) (base : parser ex) : parser ex := fun ts =>
@@ -330,88 +334,106 @@ Definition psub (m : nat) (base : parser ex) : parser ex := fun ts =>
   | _ => None
   end.
 
+(* binding := identifier, kind?, ":", expression   — read as an expression first, a binding if a colon follows *)
 Definition pbind (m : nat) (base : parser ex) : parser (string * option kind * ex) := fun ts =>
-  match ts with
-  | TId n :: r =>
-      let '(k, r1) := optkind r in
-      match r1 with
-      | TSym Colon :: TSp :: r2 => match pexp m base r2 with Some (e, r3) => Some ((n, k, e), r3) | None => None end
+  match pexp m base ts with
+  | Some (e, r) =>
+      match r with
+      | TSym Colon :: TSp :: r2 =>
+          match e with
+          | EVar n k => match pexp m base r2 with Some (v, r3) => Some ((n, k, v), r3) | None => None end
+          | _ => None
+          end
       | _ => None
       end
-  | _ => None
+  | None => None
   end.
 
+(* call argument := identifier ":" expression | expression *)
 Definition parg (m : nat) (base : parser ex) : parser (option string * ex) := fun ts =>
-  match ts with
-  | TId n :: TSym Colon :: TSp :: r => match pexp m base r with Some (e, r') => Some ((Some n, e), r') | None => None end
-  | _ => match pexp m base ts with Some (e, r') => Some ((None, e), r') | None => None end
+  match pexp m base ts with
+  | Some (e, r) =>
+      match r with
+      | TSym Colon :: TSp :: r2 =>
+          match e with
+          | EVar n None => match pexp m base r2 with Some (v, r3) => Some ((Some n, v), r3) | None => None end
+          | _ => None
+          end
+      | _ => Some ((None, e), r)
+      end
+  | None => None
   end.
 
 Definition with_kind (mk : option kind -> ex) (r : list tok) : option (ex * list tok) :=
   let '(k, r') := optkind r in Some (mk k, r').
 
-(* factor := parenthetical | negate | not | structure | call | literal | slice | var, then an optional transpose *)
+(* factor without the optional transpose; [pf] parses nested factors, [m] bounds the loops *)
+Definition pcore (m : nat) (pf : parser ex) : parser ex := fun ts =>
+  let pe := pexp m pf in
+  match ts with
+  | TSym LP :: r =>
+      match pe r with
+      | Some (e, TSym RP :: r') => Some (EParen e, r')
+      | Some (e, TSym Comma :: r') =>
+          match plist1 m sep_comma pe r' with
+          | Some (es, TSym RP :: r'') => Some (ETup (e :: es), r'')
+          | _ => None
+          end
+      | Some _ => None
+      | None => match r with TSym RP :: r' => Some (ETup [], r') | _ => None end
+      end
+  | TSym (SOp OSub) :: r => match pf r with Some (e, r') => Some (ENeg e, r') | None => None end
+  | TSym NotS :: r => match pf r with Some (e, r') => Some (ENot e, r') | None => None end
+  | TSym LB :: r =>
+      match plist1 m sep_semi_sp (plist1 m sep_sp pe) r with
+      | Some (rows, TSym RB :: r') => Some (EMat rows, r')
+      | Some _ => None
+      | None => match r with TSym RB :: r' => Some (EMat [], r') | _ => None end
+      end
+  | TSym LC :: r =>
+      match plist1 m sep_comma_sp (pbind m pf) r with
+      | Some (bs, TSym RC :: r') => Some (ERec bs, r')
+      | _ =>
+          match plist1 m sep_comma_sp pe r with
+          | Some (es, TSym RC :: r') => Some (ESet es, r')
+          | Some _ => None
+          | None => match r with TSym RC :: r' => Some (ESet [], r') | _ => None end
+          end
+      end
+  | TSym Colon :: TId a :: r => with_kind (ELit (LAtom a)) r
+  | TNum s :: r => with_kind (ELit (LNum s)) r
+  | TStr s :: r => with_kind (ELit (LStr s)) r
+  | TBool b :: r => with_kind (ELit (LBool b)) r
+  | TId x :: r =>
+      if hd_is t_lp r then
+        let r1 := List.tl r in
+        match plist1 m sep_comma_sp (parg m pf) r1 with
+        | Some (args, TSym RP :: r2) => Some (ECall x args, r2)
+        | Some _ => None
+        | None => match r1 with TSym RP :: r2 => Some (ECall x [], r2) | _ => None end
+        end
+      else
+        match psep m sep_none (psub m pf) r with
+        | ([], _) => with_kind (EVar x) r
+        | (subs, r') => Some (ESlice x subs, r')
+        end
+  | _ => None
+  end.
+
+(* factor := (parenthetical | negate | not | structure | call | literal | slice | var), transpose? *)
 Fixpoint pfac (n : nat) : parser ex := fun ts =>
   match n with
   | 0 => None
   | S m =>
-      let pe := pexp m (pfac m) in
-      let core :=
-        match ts with
-        | TSym LP :: TSym RP :: r => Some (ETup [], r)
-        | TSym LP :: r =>
-            match pe r with
-            | Some (e, TSym RP :: r') => Some (EParen e, r')
-            | Some (e, TSym Comma :: r') =>
-                match plist1 m sep_comma pe r' with
-                | Some (es, TSym RP :: r'') => Some (ETup (e :: es), r'')
-                | _ => None
-                end
-            | _ => None
-            end
-        | TSym (SOp OSub) :: r => match pfac m r with Some (e, r') => Some (ENeg e, r') | None => None end
-        | TSym NotS :: r => match pfac m r with Some (e, r') => Some (ENot e, r') | None => None end
-        | TSym LB :: TSym RB :: r => Some (EMat [], r)
-        | TSym LB :: r =>
-            match plist1 m sep_semi_sp (plist1 m sep_sp pe) r with
-            | Some (rows, TSym RB :: r') => Some (EMat rows, r')
-            | _ => None
-            end
-        | TSym LC :: TSym RC :: r => Some (ESet [], r)
-        | TSym LC :: r =>
-            match plist1 m sep_comma_sp (pbind m (pfac m)) r with
-            | Some (bs, TSym RC :: r') => Some (ERec bs, r')
-            | _ =>
-                match plist1 m sep_comma_sp pe r with
-                | Some (es, TSym RC :: r') => Some (ESet es, r')
-                | _ => None
-                end
-            end
-        | TSym Colon :: TId a :: r => with_kind (ELit (LAtom a)) r
-        | TNum s :: r => with_kind (ELit (LNum s)) r
-        | TStr s :: r => with_kind (ELit (LStr s)) r
-        | TBool b :: r => with_kind (ELit (LBool b)) r
-        | TId f :: TSym LP :: TSym RP :: r => Some (ECall f [], r)
-        | TId f :: TSym LP :: r =>
-            match plist1 m sep_comma_sp (parg m (pfac m)) r with
-            | Some (args, TSym RP :: r') => Some (ECall f args, r')
-            | _ => None
-            end
-        | TId x :: r =>
-            match psep m sep_none (psub m (pfac m)) r with
-            | ([], _) => with_kind (EVar x) r
-            | (subs, r') => Some (ESlice x subs, r')
-            end
-        | _ => None
-        end in
-      match core with
-      | Some (c, TSym Apos :: r) => Some (ETrans c, r)
-      | o => o
+      match pcore m (pfac m) ts with
+      | Some (c, r) => if hd_is t_apos r then Some (ETrans c, List.tl r) else Some (c, r)
+      | None => None
       end
   end.
 
 Definition pexpr (n : nat) : parser ex := pexp n (pfac n).
 
+(* statement: read an expression, then decide by what follows it *)
 Definition pstmt (n : nat) : parser stmt := fun ts =>
   let '(mut, ts1) := match ts with TSym Tilde :: r => (true, r) | _ => (false, ts) end in
   match pexpr n ts1 with
